@@ -343,7 +343,7 @@ func TestVerif_C36_globals(t *testing.T) {
 	vx.Run(t, "C36", func(c *vx.Ctx) {
 		bounds := vx.Pick(c, []int{2}, []int{-1})
 		c.Rule("concurrent part: for every unordered pair of calls from a small alphabet (Message.Pack / AppendPack behind a prefix followed by Unpack of the result, Message.Unpack of packed images, and the Builder with and without compression, on three well-formed messages — names with shared suffixes and a case variant; TXT/SRV/SVCB/HTTPS/unknown/OPT records; the 254-byte name, its tail and a 63-byte label — plus a non-canonical name and a 256-byte character string as error paths) two threads run one call each (thorough: twice each, three more calls) on their own fresh message / Builder on the instrumented dns/dnsmessage source starting from the package's initial state; every schedule (quick: at most 2 preemptions; thorough: unbounded) at the scheduling points — before each statement mentioning a written package-level variable " + fmt.Sprint(zzWrittenGlobals) + ", sync.Once, sync.Pool Get/Put, sync.Mutex — is executed and each call must return exactly (bytes, error, the message as Pack left it, the decoded message) what it returns alone on the uninstrumented package")
-		c.Assume("concurrent part: statement granularity at mentions of written package-level variables; accesses to heap objects only reachable from them and mutation through method calls are not scheduling points; if the package has no written package-level variable there is exactly one schedule per pair (the calls cannot interact through package state) and the part degenerates to a sequential differential test of the instrumented against the uninstrumented package; messages and Builders are never shared between the two threads")
+		c.Assume("concurrent part: statement granularity at mentions of written package-level variables; accesses to heap objects only reachable from them and mutation through method calls are not scheduling points; if the package has no written package-level variable the only scheduling choice per pair is which call runs first (the calls cannot interact through package state) and the part degenerates to a sequential differential test of the instrumented against the uninstrumented package; messages and Builders are never shared between the two threads")
 		seq := 0
 		if !c.Quick() {
 			seq = 1
